@@ -114,6 +114,7 @@ impl Outcome {
             Outcome::Val(v, l) => format!("(val {} {})", v, log_str(l)),
             Outcome::Err(k, l) => {
                 let k = match k {
+                    ErrKind::Explicit(m) if m.is_empty() => "explicit".to_string(),
                     ErrKind::Explicit(m) => format!("explicit {}", value::bytes(m.as_bytes())),
                     ErrKind::Unmatched => "unmatched".to_string(),
                     ErrKind::Arith => "arith".to_string(),
